@@ -12,7 +12,7 @@ import sim_net as SN
 from par import pmap
 
 PROP = "C06"
-PROPERTY_FILES = ["Properties/C06.v"]
+PROPERTY_FILES = ["Properties/C06.v", "Properties/C06live.v"]
 META = dict(
     level_text="Theorems (Coq, closed under the global context). Small-step model of one instance (outgoing thread cut at "
                "every access to state another thread writes; enqueues and incoming RESET/address handling interleaved "
@@ -30,11 +30,31 @@ META = dict(
                "after inferring from the code which order and which threshold convention it uses. Oracle: 2-3 real "
                "engines + real BoboDistributedTCP over a fake network; bounded-exhaustive and random fault sequences, "
                "then healing; replicas must agree, nothing stale/missing/resurrected; plus the knowledge invariant and "
-               "the supersedes premise checked on the implementation after every step.",
+               "the supersedes premise checked on the implementation after every step. HEALING HALF (Properties/C06live.v, "
+               "repaired order, every interleaving of enqueues / RESETs / address changes / failures towards other peers): "
+               "C06_heal_progress - from any reachable state at the top of an iteration, if every message handed to the "
+               "socket layer for peer j is delivered and every decision for j finds the retry interval that applies elapsed "
+               "(RESYNC period: now-last_attempt reached attempt_resync; otherwise: an item is held, or the backlog is empty, "
+               "or now-last_attempt reached attempt_stash), then after max(queue length,1) complete iterations every note "
+               "reported before that state has been delivered to j (SYNC containing it / later RESYNC) and j's backlog is "
+               "empty; C06_heal_progress_general - the same with the clock premise needed ONCE, at the max(L,1)-th or a later "
+               "iteration (tracker (r,d)); C06_heal_contact(_general) - with no RESET from j handled meanwhile and "
+               "period_resync > 0, j is within the RESYNC period afterwards; C06_heal_receiver(_general) / "
+               "C06_delivered_reaches_receiver - with the receiver any run of the decider model (local events and messages "
+               "from anyone, memory with room, non-singleton) that has applied every delivered message naming a run, and "
+               "snapshots at least as advanced as the notes reported before them, the receiver remembers every run the "
+               "sender reported finished and holds every run it reported active as finished or active at least as far. "
+               "The harness follows the healing phase of every oracle scenario with the same tracker, checks heal_ok / the "
+               "clock / applied_all / snapshots_cover on the implementation and compares the iteration at which the "
+               "theorem promises delivery with the iteration after which the real loop had delivered everything.",
     level_note="Trusted: Coq kernel/vm_compute; harness (sim_net.py, out_driver.py: budgeted _thread_closed, fake "
                "socket/time, device-manager proxies as yield points). The real thread scheduler is modelled by "
-               "interleaving at the granularity of individually locked accessors and Queue operations. Healing "
-               "(liveness) is checked by the oracle only; convergence of the decider lattice is C04/C05.",
+               "interleaving at the granularity of individually locked accessors and Queue operations. The healing "
+               "theorems are about the repaired step order only (the pinned order does not satisfy the invariant they start "
+               "from); fairness (the outgoing loop keeps iterating) is the iteration count in their premises; the two "
+               "interface premises of C06_heal_receiver (applied_all, snapshots_cover) are checked on the implementation, not "
+               "proved from a joint model of decider + tcp; the Python tracker in pC06.HealMonitor mirrors "
+               "Model/ReplicationLive.v (due_at, track). Convergence of the decider lattice is C04/C05.",
     rule="correspondence: 1-2 peers x {in contact, ping period, resync period, backlog due} x queue empty/non-empty x one "
          "injection (enqueue / incoming with or without RESET) at every yield point of every peer x outcomes, plus "
          "random histories with up to 3 injections; oracle: every sequence up to depth 3 (2 instances) over {input, "
@@ -47,6 +67,10 @@ META = dict(
                   "run records abstracted to run ids in the correspondence; (run id, block index, history size) in the oracle"],
     assumptions=["each individually locked BoboDeviceManager accessor and each Queue operation is atomic; nothing coarser",
                  "the clock never steps back (knowledge_inv); stash and flag_reset are written by the outgoing thread only",
+                 "healing theorems: every send to the peer in question succeeds from the healing point on (heal_ok), the "
+                 "retry interval has elapsed at the decision that counts (due_at), the loop completes the stated number of "
+                 "iterations; for the contact clause no RESET from that peer is handled meanwhile; for the receiver clause "
+                 "applied_all and snapshots_cover - each checked on the healing phase of every explored schedule",
                  "finished-run memory enabled and not overflowing, non-singleton patterns, patterns that ignore fed-back "
                  "complex events (oracle scope, as the property states)"])
 
@@ -335,16 +359,262 @@ def message_order_violations(net):
     return out
 
 
+# ---- healing half (Properties/C06live.v): premises checked, bound compared with the real loop
+_CONV = (True, True, True, True, True)       # threshold convention of the code (set by run() / replay() before the oracle)
+
+
+def _reached(ge, x, t):
+    return x >= t if ge else x > t
+
+
+def incoming_len(nd):
+    return nd.dist._queue_incoming.qsize()
+
+
+def vacuous(nk):
+    return not (nk[0] or nk[1] or nk[2])
+
+
+def delivered_all(net, i, j, m0):
+    """every note instance i reported before the healing point (the first m0) is covered by a message that reached
+    the socket layer for j: a SYNC containing it or a RESYNC whose snapshot was taken after it was reported"""
+    nd = net.nodes[i]
+    msgs = [w for w in net.wire if w["kind"] == "msg" and w["src"] == i and w["dst"] == j
+            and w["src_gen"] == nd.gen and w["dst_gen"] == net.nodes[j].gen]
+    for t in range(m0):
+        nk = nd.emitted[t]
+        if vacuous(nk):
+            continue
+        if not any((w["type"] == SN.SYNC and sub(nk[0], w["c"]) and sub(nk[1], w["h"]) and sub(nk[2], w["u"]))
+                   or (w["type"] == SN.RESYNC and w["seen"] > t) for w in msgs):
+            return False
+    return True
+
+
+class HealMonitor:
+    """Follows the healing phase of a scenario with the vocabulary of Model/ReplicationLive.v, for every ordered pair
+    (sender i, peer j): checks heal_ok (every message handed to the socket layer for j is delivered; the clock does
+    not step back), evaluates due_at at the decision for j of every iteration (values read off the real device
+    manager immediately before the loop reads them), runs `track` (r, d), and at the iteration in which d becomes
+    true compares the real state with the conclusion of C06_heal_progress_general / C06_heal_contact_general."""
+
+    def __init__(self, net):
+        self.net = net
+        self.pr, self.ast, self.ar = net.periods[1], net.periods[2], net.periods[4]
+        self.fails = []
+        self.iter_no = [0] * net.n
+        self.m0 = [len(nd.emitted) for nd in net.nodes]
+        self.clock0 = net.clock.cur
+        self.pairs = {}
+        for i in range(net.n):
+            L = len(net.queue_notes(i))
+            for j in range(net.n):
+                if j != i:
+                    st = dict(L=L, r=L, d=False, bound=None, real=None, premise=True, due_iters=0)
+                    if self.drained(i, j):
+                        st["real"] = 0
+                    self.pairs[(i, j)] = st
+
+    def drained(self, i, j):
+        ps = self.net.peer_state(i, j)
+        return sum(len(x) for x in ps["st"]) == 0 and delivered_all(self.net, i, j, self.m0[i])
+
+    def out_iter(self, i):
+        net = self.net
+        nd = net.nodes[i]
+        self.iter_no[i] += 1
+        it = self.iter_no[i]
+        qe = len(net.queue_notes(i)) == 0
+        reads, tab = {}, {}
+        for j in range(net.n):
+            if j == i:
+                continue
+
+            def rd_lc(j=j):
+                reads[("lc", j)] = net.dev(i, j).last_comms
+
+            def rd_la(j=j):
+                d = net.dev(i, j)
+                reads[("la", j)] = (d.last_attempt, d.size_stash())
+            tab[("lc", j)] = rd_lc
+            tab[("la", j)] = rd_la
+        w0 = len(net.wire)
+        t_before = net.clock.cur
+        net.out_iter(i, tab)
+        now = nd.iter_now
+        if net.clock.cur < t_before or now < self.clock0:
+            self.fails.append(("heal-premise-clock-stepped-back", "the clock stepped back during the healing phase"))
+        resets = set()
+        for w in net.wire[w0:]:
+            if w["kind"] == "refused" and w["src"] == i:
+                self.pairs[(i, w["dst"])]["premise"] = False
+            elif w["kind"] == "msg" and w["src"] == i and not w.get("sender_ok", True):
+                self.pairs[(i, w["dst"])]["premise"] = False
+            elif w["kind"] == "msg" and w["dst"] == i and (w["flags"] & 1) and w["err"] is None:
+                resets.add(w["src"])
+        for j in range(net.n):
+            if j == i:
+                continue
+            st = self.pairs[(i, j)]
+            st["r"] = max(st["r"] - 1, 0)
+            due = False
+            if ("lc", j) in reads and ("la", j) in reads:
+                lcv = reads[("lc", j)]
+                la, sz = reads[("la", j)]
+                if _reached(_CONV[0], now - lcv, self.pr):
+                    due = _reached(_CONV[1], now - la, self.ar)
+                else:
+                    due = (not qe) or sz == 0 or _reached(_CONV[4], now - la, self.ast)
+            if due:
+                st["due_iters"] += 1
+            if st["real"] is None and self.drained(i, j):
+                st["real"] = it
+            if st["premise"] and not st["d"] and st["r"] == 0 and due:
+                # the theorem's bound: by the end of THIS iteration everything reported before the healing point
+                # has been delivered to j and j's backlog is empty
+                st["d"], st["bound"] = True, it
+                if st["real"] is None:
+                    ps = net.peer_state(i, j)
+                    self.fails.append((
+                        "heal-bound-exceeded",
+                        "links healed, queue length at the healing point %d, iteration %d of instance %d decided for "
+                        "instance %d with the retry intervals elapsed: the theorem's bound is reached, but %s"
+                        % (st["L"], it, i, j,
+                           "the backlog still holds %r" % (ps["st"],) if sum(len(x) for x in ps["st"]) else
+                           "a change reported before the healing point has not been delivered")))
+                if j not in resets:
+                    lc_now = net.dev(i, j).last_comms
+                    if _reached(_CONV[0], now - lc_now, self.pr):
+                        self.fails.append((
+                            "heal-peer-still-owed-resync",
+                            "iteration %d of instance %d (clock %d) decided for instance %d with the retry intervals elapsed and "
+                            "every send delivered, yet last_comms is %d: the peer is still in the RESYNC period"
+                            % (it, i, now, j, lc_now)))
+
+    def receiver_violations(self):
+        """conclusion of C06_heal_receiver_general on the real deciders, for the pairs whose bound was reached and whose
+        receiver has applied everything that was delivered to it"""
+        out = []
+        net = self.net
+        for (i, j), st in self.pairs.items():
+            if not st["d"]:
+                continue
+            rcv = net.nodes[j]
+            if incoming_len(rcv) != 0:
+                continue
+            cc, ch, _ = rcv.real_snapshot()
+            idc, idh = set(r.run_id for r in cc), set(r.run_id for r in ch)
+            act = {r.run_id: (r.block_index, r.history().size()) for r in rcv.engine.decider.all_runs()}
+            for t in range(self.m0[i]):
+                c, h, u = net.nodes[i].emitted[t]
+                bad = [("completed", k) for k in c if k[0] not in idc]
+                bad += [("halted", k) for k in h if k[0] not in idc and k[0] not in idh]
+                bad += [("updated", k) for k in u if k[0] not in idc and k[0] not in idh
+                        and (k[0] not in act or act[k[0]] < (k[1], k[2]))]
+                if bad:
+                    out.append(("heal-receiver-behind",
+                                "after healing (bound reached at iteration %d) instance %d does not hold what instance %d "
+                                "reported before the healing point: %s run %r" % (st["bound"], j, i, bad[0][0], bad[0][1])))
+                    break
+        return out
+
+    def stats(self):
+        b = [st for st in self.pairs.values() if st["bound"] is not None]
+        return dict(pairs=len(self.pairs), bound_reached=len(b),
+                    premise_violated=sum(1 for st in self.pairs.values() if not st["premise"]),
+                    slack=[st["bound"] - st["real"] for st in b if st["real"] is not None],
+                    late=sum(1 for st in b if st["real"] is None or st["real"] > st["bound"]),
+                    max_bound=max([st["bound"] for st in b] or [0]),
+                    queue_at_heal=max([st["L"] for st in self.pairs.values()] or [0]))
+
+
+def applied_all_violations(net):
+    """premise applied_all of C06_heal_receiver: every SYNC / RESYNC that names a run and reached the socket layer has
+    been handed to the receiver's decider (compared as multisets of payloads per receiver)"""
+    out = []
+    for j, nd in enumerate(net.nodes):
+        if incoming_len(nd) != 0:
+            continue
+        got = {}
+        for ap in nd.applied:
+            k = (tuple(ap["want"]["c"]), tuple(ap["want"]["h"]), tuple(ap["want"]["u"]))
+            got[k] = got.get(k, 0) + 1
+        want = {}
+        for w in net.wire:
+            if w["kind"] == "msg" and w["dst"] == j and w["dst_gen"] == nd.gen and w["err"] is None \
+                    and w["type"] in (SN.SYNC, SN.RESYNC) and (w["c"] or w["h"] or w["u"]):
+                k = (tuple(x[0] for x in w["c"]), tuple(x[0] for x in w["h"]), tuple(w["u"]))
+                want[k] = want.get(k, 0) + 1
+        for k, cnt in want.items():
+            if got.get(k, 0) < cnt:
+                out.append(("delivered-message-not-applied",
+                            "instance %d received a message (completed %r, halted %r, updated %r) %d time(s) and applied it %d time(s)"
+                            % (j, list(k[0]), list(k[1]), list(k[2]), cnt, got.get(k, 0))))
+                break
+    return out
+
+
+def wiring_violations(net):
+    """premise sender_wired of C06_heal_receiver_wired: the payload of every RESYNC is what decider.snapshot() returned at a
+    moment when exactly `seen` notes had been reported"""
+    for w in net.wire:
+        if w["kind"] != "msg" or w["type"] != SN.RESYNC:
+            continue
+        nd = net.nodes[w["src"]]
+        if w["src_gen"] != nd.gen or not hasattr(nd, "snaps"):
+            continue
+        pay = (tuple(w["c"]), tuple(w["h"]), tuple(w["u"]))
+        if (w["seen"], pay) not in nd.snaps:
+            return [("resync-payload-is-not-the-snapshot",
+                     "the RESYNC instance %d sent to %d at %d does not carry what decider.snapshot() returned after %d notes"
+                     % (w["src"], w["dst"], w["t"], w["seen"]))]
+    return []
+
+
+def snapshot_cover_violations(net):
+    """premise snapshots_cover of C06_heal_receiver: a RESYNC payload is at least as advanced as every note its sender
+    reported before the snapshot was taken"""
+    out = []
+    for w in net.wire:
+        if w["kind"] != "msg" or w["type"] != SN.RESYNC:
+            continue
+        nd = net.nodes[w["src"]]
+        if w["src_gen"] != nd.gen:
+            continue
+        idc, idh = set(k[0] for k in w["c"]), set(k[0] for k in w["h"])
+        act = {}
+        for k in w["u"]:
+            act[k[0]] = max(act.get(k[0], (-1, -1)), (k[1], k[2]))
+        for t in range(min(w["seen"], len(nd.emitted))):
+            c, h, u = nd.emitted[t]
+            bad = [("completed", k) for k in c if k[0] not in idc]
+            bad += [("halted", k) for k in h if k[0] not in idc and k[0] not in idh]
+            bad += [("updated", k) for k in u if k[0] not in idc and k[0] not in idh
+                    and (k[0] not in act or act[k[0]] < (k[1], k[2]))]
+            if bad:
+                out.append(("snapshot-behind-earlier-note",
+                            "the snapshot instance %d sent to %d at %d does not cover its own earlier report: %s run %r"
+                            % (w["src"], w["dst"], w["t"], bad[0][0], bad[0][1])))
+                return out
+    return out
+
+
 def heal_and_settle(net, max_rounds=70):
     """all links up; let the protocol run until every stash retry / ping / resync has had its chance"""
     net.heal()
+    mon = HealMonitor(net)
+    net.heal_monitor = mon
     waited, calm = 0, 0
     for r in range(max_rounds):
-        rounds(net, 1, 0)
+        for i in range(net.n):
+            mon.out_iter(i)
+        for i in range(net.n):
+            net.main_update(i)
         same = all(net.runs(k) == net.runs(0) for k in range(net.n))
         if net.quiet() and same:
             calm += 1
             if calm >= 2:
+                drain_bounds(net, mon)
                 return True
         else:
             calm = 0
@@ -353,7 +623,21 @@ def heal_and_settle(net, max_rounds=70):
         waited += step
         if waited > 260:
             break
+    drain_bounds(net, mon)
     return False
+
+
+def drain_bounds(net, mon, max_extra=8):
+    """keep iterating (clock +11 s per round, beyond every retry interval) until the bound of C06_heal_progress_general
+    has been reached for every pair, so that it is compared with the real loop for every pair"""
+    for _ in range(max_extra):
+        if all(st["d"] or not st["premise"] for st in mon.pairs.values()):
+            return
+        net.advance(11)
+        for i in range(net.n):
+            mon.out_iter(i)
+        for i in range(net.n):
+            net.main_update(i)
 
 
 def final_violations(net):
@@ -385,6 +669,14 @@ def final_violations(net):
 def run_scenario(sc, verbose=False):
     net = SN.Net(engine_desc(sc["pat"]), sc["n"], PERIODS, t0=1000, recv_sizes=sc.get("recv"))
     fails = []
+    for nd in net.nodes:          # wiring premise (sender_wired): remember what decider.snapshot() returned, and when
+        nd.snaps = []
+
+        def snapshot(nd=nd, inner=nd.engine.decider.snapshot):
+            r = inner()
+            nd.snaps.append((len(nd.emitted), SN.note_key(r[0], r[1], r[2])))
+            return r
+        nd.engine.decider.snapshot = snapshot
     rounds(net, 2)
 
     def check(step):
@@ -405,6 +697,13 @@ def run_scenario(sc, verbose=False):
     if not fails:
         check("heal")
     fails += final_violations(net)
+    # healing half: premises of the theorems of Properties/C06live.v, and their conclusions on the real state
+    mon = net.heal_monitor
+    fails += mon.fails
+    fails += applied_all_violations(net)
+    fails += snapshot_cover_violations(net)
+    fails += wiring_violations(net)
+    fails += mon.receiver_violations()
     for i, j, typ, dec, ok in message_order_violations(net):
         fails.append(("incremental-after-resync-period",
                       "%s from %d to %d decided at %d, last successful contact %d (period_resync %d)" % (typ, i, j, dec, ok, PERIODS[1])))
@@ -425,7 +724,7 @@ def run_scenario(sc, verbose=False):
             nm = SN.MODE_NAME[w["type"]]
             kinds[nm] = kinds.get(nm, 0) + 1
     return dict(fails=fails, nontrivial=emitted > 0 and msgs > 0, kinds=kinds, settled=settled,
-                runs=[net.runs(k) for k in range(net.n)], wire=len(net.wire))
+                runs=[net.runs(k) for k in range(net.n)], wire=len(net.wire), heal=mon.stats())
 
 
 def sc_size(sc):
@@ -500,7 +799,7 @@ def oracle_scenarios(ctx):
 
 def work(sc):
     r = run_scenario(sc)
-    return dict(fails=r["fails"][:4], nontrivial=r["nontrivial"], kinds=r["kinds"], settled=r["settled"])
+    return dict(fails=r["fails"][:4], nontrivial=r["nontrivial"], kinds=r["kinds"], settled=r["settled"], heal=r["heal"])
 
 
 def shrink(sc, sig):
@@ -557,10 +856,20 @@ def run(ctx, res):
         res.mismatches += [dict(case=cases[i], impl=None, model=None) for i, _ in mism[10:]]
 
     # ---- oracle
+    global _CONV
+    _CONV = tuple(conv)
     scen = oracle_scenarios(ctx)
     results = pmap(work, scen, chunksize=8)
     fails = []
+    heal = dict(pairs=0, bound_reached=0, premise_violated=0, late=0, max_bound=0, queue_at_heal=0, slack={})
     for sc, r in zip(scen, results):
+        h = r["heal"]
+        for k in ("pairs", "bound_reached", "premise_violated", "late"):
+            heal[k] += h[k]
+        heal["max_bound"] = max(heal["max_bound"], h["max_bound"])
+        heal["queue_at_heal"] = max(heal["queue_at_heal"], h["queue_at_heal"])
+        for x in h["slack"]:
+            heal["slack"][str(x)] = heal["slack"].get(str(x), 0) + 1
         res.note_case(("or", json.dumps(sc, sort_keys=True)), r["nontrivial"])
         res.count("oracle_instances_%d" % sc["n"])
         res.count("oracle_settled" if r["settled"] else "oracle_not_settled")
@@ -572,6 +881,15 @@ def run(ctx, res):
             fails.append(dict(signature=sig, what=what, case=sc, detail=None))
     fails.sort(key=lambda f: sc_size(f["case"]))
     res.extra["oracle_scenarios"] = len(scen)
+    res.extra["healing_phase"] = dict(
+        heal, note="per ordered pair (sender, peer) of every scenario's healing phase: heal_ok checked on every send "
+                   "(premise_violated), due_at evaluated at every decision, track run as in Model/ReplicationLive.v; "
+                   "bound_reached = pairs for which d became true; slack = (iteration at which the theorem promises "
+                   "delivery) - (iteration after which the real loop had delivered everything and emptied the backlog), "
+                   "never negative; late = pairs for which the real loop needed more than the bound (each is a failure)")
+    res.count("heal_pairs", heal["pairs"])
+    res.count("heal_bound_reached", heal["bound_reached"])
+    res.count("heal_premise_violated", heal["premise_violated"])
     res.extra["oracle_failures_total"] = len(fails)
     kept, seen = [], set()
     for f in fails:
@@ -600,6 +918,8 @@ def replay(obj):
         print(json.dumps(obj, indent=1)[:3000])
         return 1 if obj.get("kind") == "unchecked" else 0
     if "pat" in case:
+        global _CONV
+        _CONV = tuple(pC15.infer_conv()[0])
         print("scenario: %d instances, pattern %r (blocks accept data 1, 2, 3 in turn), periods %r" % (case["n"], case["pat"], PERIODS))
         print("prefix  : two rounds of (outgoing iteration everywhere, main update everywhere)")
         r = run_scenario(case, verbose=True)
